@@ -120,12 +120,15 @@ open Setec.Fs in
 example : (execs { target := some ([1], 0o600), tmp := none } ((atomicWrite [[7], [8]] 0o600).take 2)).target = some ([1], 0o600) := by
   decide
 
-/-- The in-process clauses `savefail_noop` and `mem_eq_disk`, as the driver evaluates them on the
+/-- The in-process clauses `savefail_noop`, `mem_eq_disk` and `gen_iff_saved` (the write generation
+moves exactly when the state does), as the driver evaluates them on the
 real code's steps, hold of the specification's own step in every state that satisfies the store
 invariant. -/
 theorem monitors_sound (kv : KV.KV) (c : DB.Caller) (op : DB.Op) (aok sok : Bool) (h : KV.Inv kv) :
     DBMon.c04_savefail_noop (MonSound.obsOf kv c op aok sok) = true ∧
-    DBMon.c04_mem_eq_disk (MonSound.obsOf kv c op aok sok) = true :=
-  ⟨MonSound.c04_savefail_noop_sound kv c op aok sok h, MonSound.c04_mem_eq_disk_sound kv c op aok sok⟩
+    DBMon.c04_mem_eq_disk (MonSound.obsOf kv c op aok sok) = true ∧
+    DBMon.c04_gen_iff_saved (MonSound.obsOf kv c op aok sok) = true :=
+  ⟨MonSound.c04_savefail_noop_sound kv c op aok sok h, MonSound.c04_mem_eq_disk_sound kv c op aok sok,
+   MonSound.c04_gen_iff_saved_sound kv c op aok sok h⟩
 
 end Setec.C04
